@@ -208,7 +208,88 @@ class Acl(Engine):
             yield Case(f'parse{i}', ops)
 
     # ---- oracle ----------------------------------------------------------
+    @staticmethod
+    def parse_dump(line):
+        """'… mode=<o> types=<t> n=<k> e…' -> (mode, [entries without the three made up from mode])."""
+        m = re.search(r'mode=([0-7]+) types=(\d+) n=(\d+)(.*)$', line)
+        if not m:
+            return None
+        ents = [dec_fields(t, False) for t in m.group(4).split()]
+        return int(m.group(1), 8), ents[3:] if ents else []
+
+    @staticmethod
+    def name_chars(n, wide):
+        if n == '-':
+            return []
+        return [int(x, 16) for x in n.split('.')] if wide else list(bytes.fromhex(n))
+
     def oracle(self, case, impl):
+        """Round trip on the implementation's own output: for an ACL inside the property's quantifier and a
+        style with ids, the entries parsed back are the entries the text was made from."""
+        wide = case.ops[0] == 'variant w'
+        state = None
+        for op, o in zip(case.ops, impl):
+            w = op.split()
+            if o.startswith('!'):
+                return 'implementation crashed or aborted: ' + o
+            if w[0] == 'variant':
+                wide = w[1] == 'w'
+            if w[0] == 'dump':
+                state = self.parse_dump(o)
+            if w[0] in ('parse', 'parsenl') and not re.fullmatch(r'st=(ok|warn|failed|fatal)', o):
+                return 'parser returned an unknown status: ' + o
+            if w[0] != 'rt' or o == 'null' or state is None:
+                continue
+            flags, want = int(w[1]), int(w[2])
+            if not flags & EXTRA_ID:
+                continue
+            mode, ents = state
+            nfs4 = any(e[0] & 0x3c00 for e in ents)
+            if nfs4:
+                sel, sel_types = ents, 0x3c00
+                if want != 0x3c00:
+                    continue
+            else:
+                sel_types = flags & 0x300 or 0x300
+                sel = [e for e in ents if e[0] & sel_types]
+                if want != (DEFAULT if sel_types == DEFAULT else ACCESS) and not (want == 0x300 and sel_types != DEFAULT):
+                    continue
+            # the property's quantifier
+            inside, hashed = True, False
+            for (ty, tag, perm, id_, nm) in sel:
+                chars = self.name_chars(nm, wide)
+                if tag in (USER, GROUP):
+                    if not 0 <= id_ < 2**31:
+                        inside = False
+                    if any(c in (58, 44, 32, 9, 10, 0) for c in chars) or (chars and all(48 <= c <= 57 for c in chars)):
+                        inside = False
+                    if 35 in chars:
+                        hashed = True
+                elif id_ != -1 or chars:
+                    inside = False
+            if not inside:
+                continue
+            got = self.parse_dump(o)
+            m = re.search(r' st=(\w+) ', o)
+            if got is None or m is None:
+                return 'unreadable rt result ' + o[:80]
+            exp = []
+            for (ty, tag, perm, id_, nm) in sel:
+                if tag in (USER, GROUP) and nm == '-':
+                    nm = enc(str(id_), wide)
+                exp.append((ty, tag, perm, id_, nm))
+            exp_mode = (mode & 0o777) if (nfs4 is False and sel_types & ACCESS) else 0
+            bad = None
+            if m.group(1) != 'ok':
+                bad = f'parsing the generated text returned {m.group(1)}'
+            elif sorted(got[1]) != sorted(exp):
+                bad = f'entries after the round trip differ: lost {sorted(set(exp) - set(got[1]))[:2]} gained {sorted(set(got[1]) - set(exp))[:2]}'
+            elif got[0] != exp_mode:
+                bad = f'mode after the round trip is {got[0]:o}, expected {exp_mode:o}'
+            if bad:
+                if hashed:
+                    return "round trip fails for a qualifier name containing '#': " + bad
+                return f'round trip (flags {flags}, {"wide" if wide else "narrow"}): ' + bad
         return None
 
     def nontrivial(self, case, impl):
